@@ -204,8 +204,14 @@ def oracle(ctx, exe, rng, n):
                 if not (t > 0) or res > tol:
                     fails.append(("intersection not on surface / not positive", l, o,
                                   {"t": t, "residual": res, "tol": tol}))
-            # missed nearer root: sign change of f before the first reported hit
-            if abs(f0) > 1e-3 * scale:
+            # missed nearer root: sign change of f before the first reported hit.  Not applied
+            # inside the documented band 0 < |a| < min_a = 1e-10 of the leading ray coefficient,
+            # where solve_general deliberately solves the linearised equation (the hypothesis
+            # `leadOK` of theorem isect_complete); a = quadratic part of f along the direction
+            lead = (quadric(tag, d, dr) + quadric(tag, d, [-v for v in dr])) / 2 \
+                - quadric(tag, d, [0.0, 0.0, 0.0])
+            in_band = 0 < abs(lead) < 1.0001e-10 + 4e-16 * scale
+            if abs(f0) > 1e-3 * scale and not in_band:
                 tmax = min(finite) if finite else 50.0
                 prev, steps = f0, 400
                 for k in range(1, steps):
